@@ -30,6 +30,7 @@ func init() {
 			ruleFreelistCountConvention(c, "C12.R5")
 			c12R6(c, "C12.R6")
 			ruleChecksumAfterMutation(c, "C12.R7", 5)
+			c12R10(c, "C12.R10")
 			rulePageTypeExact(c, "C12.R9") // v2: a page carries exactly one type flag
 			ruleInlineNoNested(c, "C12.R8") // v2 convention: an inline bucket has root page 0 and owns no pages
 		},
@@ -705,5 +706,96 @@ func c12R6(c *Ctx, id string) {
 			}
 		}
 		c.check(id+":(*DB).init:offset-0", ini, ini.Pos(), "the buffer is written at file offset 0", okOff, "")
+	})
+}
+
+// c12R10: the field accessors of the mapped structs are the atoms every other table in this checker (and
+// every reader/writer in bbolt) is built on: a getter returns exactly its own field, a setter stores
+// exactly its parameter into exactly its own field. Methods are matched to fields by name
+// (case-insensitive, `Set` prefix), plus the aliases below.
+func c12R10(c *Ctx, id string) {
+	c.rule(id, "accessor-integrity", 40, func() {
+		alias := map[string]string{"RootPage": "root", "SetRootPage": "root", "InSequence": "sequence", "SetInSequence": "sequence"}
+		for _, fn := range c.P.FnsIn(commonPath) {
+			if fn.Signature.Recv() == nil || len(fn.Blocks) == 0 || len(fn.Params) == 0 {
+				continue
+			}
+			rt := fn.Signature.Recv().Type()
+			if p, ok := rt.(*types.Pointer); ok {
+				rt = p.Elem()
+			}
+			named, ok := rt.(*types.Named)
+			if !ok {
+				continue
+			}
+			st, ok := named.Underlying().(*types.Struct)
+			if !ok {
+				continue
+			}
+			name := fn.Name()
+			isSet := strings.HasPrefix(name, "Set") && fn.Signature.Params().Len() == 1 && fn.Signature.Results().Len() == 0
+			isGet := fn.Signature.Params().Len() == 0 && fn.Signature.Results().Len() == 1
+			if !isSet && !isGet {
+				continue
+			}
+			want := alias[name]
+			if want == "" {
+				want = strings.TrimPrefix(name, "Set")
+				if isGet {
+					want = name
+				}
+			}
+			var field *types.Var
+			for i := 0; i < st.NumFields(); i++ {
+				if strings.EqualFold(st.Field(i).Name(), want) {
+					field = st.Field(i)
+				}
+			}
+			if field == nil {
+				continue // not a plain field accessor (Key()/Value() of elements, Sum64, ...)
+			}
+			recv := fn.Params[0]
+			key := fmt.Sprintf("%s:%s", id, shortFn(fn))
+			if isGet {
+				if !types.Identical(fn.Signature.Results().At(0).Type(), field.Type()) {
+					continue // e.g. RootBucket() *InBucket: an address, not the field value
+				}
+				bad := ""
+				for _, r := range returnsOf(fn) {
+					ld, ok := stripConv(returnedValue(r, 0)).(*ssa.UnOp)
+					var fa *ssa.FieldAddr
+					if ok && ld.Op == token.MUL {
+						fa, _ = ld.X.(*ssa.FieldAddr)
+					}
+					if fa == nil || fieldOfAddr(fa) != field || fa.X != ssa.Value(recv) {
+						// value receivers: field read of the loaded struct
+						if f, isF := stripConv(returnedValue(r, 0)).(*ssa.Field); isF && fieldOfField(f) == field {
+							continue
+						}
+						bad = fmt.Sprintf("%s() does not return the field %s of its receiver", name, field.Name())
+					}
+				}
+				c.check(key, fn, fn.Pos(), fmt.Sprintf("getter returns exactly the field `%s`", field.Name()), bad == "", bad)
+			} else {
+				var stores []*ssa.Store
+				eachInstr(fn, func(in ssa.Instruction) {
+					if s, ok := in.(*ssa.Store); ok {
+						stores = append(stores, s)
+					}
+				})
+				bad := ""
+				if len(stores) != 1 {
+					bad = fmt.Sprintf("%d stores, want exactly one", len(stores))
+				} else {
+					fa, _ := stores[0].Addr.(*ssa.FieldAddr)
+					if fa == nil || fieldOfAddr(fa) != field || fa.X != ssa.Value(recv) {
+						bad = fmt.Sprintf("%s() does not store into the field %s of its receiver", name, field.Name())
+					} else if stripConv(stores[0].Val) != ssa.Value(fn.Params[1]) {
+						bad = fmt.Sprintf("%s() stores something other than its parameter", name)
+					}
+				}
+				c.check(key, fn, fn.Pos(), fmt.Sprintf("setter stores exactly its parameter into the field `%s`", field.Name()), bad == "", bad)
+			}
+		}
 	})
 }
